@@ -11,6 +11,8 @@ import (
 	"errors"
 	"fmt"
 	"io"
+	"os"
+	"strings"
 	"sync"
 	"sync/atomic"
 	"time"
@@ -25,10 +27,10 @@ import (
 )
 
 const (
-	pmWatchdog     = 30 * time.Second
+	pmWatchdog     = 15 * time.Second
 	deadlineScale  = 20 // write deadlines of the scripted transport run 20x faster than the real ones (20 s -> 1 s, 3 s -> 150 ms)
 	defaultWriteDl = 20 * time.Second
-	groupSize      = 16
+	groupSize      = 32
 )
 
 type outMsg struct {
@@ -151,11 +153,21 @@ type pmExec struct {
 	repMu   sync.Mutex
 	pause   int32 // 1: the attacker does not read (slow reader)
 	answered int64
+	dead     bool // a liveness probe failed: the process has to be replaced
 	drainWG sync.WaitGroup
 }
 
 func newPMExec(s Sink) (*pmExec, error) {
+	t0 := time.Now()
+	defer func() {
+		if os.Getenv("C15_DEBUG_TIME") != "" {
+			fmt.Fprintf(os.Stderr, "newPMExec %v\n", time.Since(t0))
+		}
+	}()
 	f, err := newChainFx()
+	if os.Getenv("C15_DEBUG_TIME") != "" {
+		fmt.Fprintf(os.Stderr, "newChainFx %v\n", time.Since(t0))
+	}
 	if err != nil {
 		return nil, err
 	}
@@ -231,6 +243,10 @@ var statusCh = make(chan struct{}, 1024)
 // connect opens a new scripted connection and answers the node's protocol handshake,
 // honestly (hs == nil) or with the given payload.
 func (x *pmExec) connect(hs *Payload, hsCode uint32) bool {
+	if os.Getenv("C15_DEBUG_TIME") != "" {
+		t0 := time.Now()
+		defer func() { fmt.Fprintf(os.Stderr, "connect %v\n", time.Since(t0)) }()
+	}
 	x.nConn++
 	p := newSPeer(fx.NewKey("c15-remote", x.nConn))
 	p.answered = &x.answered
@@ -318,6 +334,10 @@ func (x *pmExec) statusRoundTrip() bool {
 // alive makes sure the node still serves an honest remote: on the current connection if the
 // node kept it, else on a new one.
 func (x *pmExec) alive() (ok bool, reconnected bool) {
+	if os.Getenv("C15_DEBUG_TIME") != "" {
+		t0 := time.Now()
+		defer func() { fmt.Fprintf(os.Stderr, "alive %v reconnected=%v\n", time.Since(t0), reconnected) }()
+	}
 	if x.cur != nil && !x.cur.isClosed() {
 		if x.statusRoundTrip() {
 			return true, false
@@ -337,6 +357,10 @@ func (x *pmExec) alive() (ok bool, reconnected bool) {
 }
 
 func (x *pmExec) exec(cs Case) {
+	if os.Getenv("C15_DEBUG_TIME") != "" {
+		t0 := time.Now()
+		defer func() { fmt.Fprintf(os.Stderr, "exec %v %s\n", time.Since(t0), cs.Kind) }()
+	}
 	x.window = append(x.window, cs)
 	wit := map[string]interface{}{"window": append([]Case(nil), x.window...)}
 	contents := make([][]byte, len(cs.Msgs))
@@ -371,6 +395,9 @@ func (x *pmExec) exec(cs Case) {
 			rep = 1
 		}
 		for i := 0; i < rep; i++ {
+			if i > 0 && m.Payload.varies() {
+				content = m.Payload.bytesAt(i)
+			}
 			if !x.sendRaw(m.Code, content) {
 				break
 			}
@@ -391,8 +418,10 @@ func (x *pmExec) exec(cs Case) {
 		outcome = "closed-by-node"
 	}
 	if !ok {
-		x.s.Violation("C15/node-unresponsive:c:no-answer-to-status-request",
-			fmt.Sprintf("after the input the node does not answer an honest status request within %v (neither on the old nor on a new connection)", pmWatchdog), wit)
+		where, all := stuckWhere()
+		x.s.Violation("C15/node-unresponsive:c:no-answer-to-status-request:"+where,
+			fmt.Sprintf("after the input the node does not answer an honest status request within %v; goroutines of the manager: %s", pmWatchdog, all), wit)
+		x.dead = true
 	}
 	x.s.Seen("connection_outcomes_c", outcome)
 	x.s.Stat("outcome_c_"+outcome, 1)
@@ -413,8 +442,13 @@ func (x *pmExec) groupEnd() bool {
 	a := startAlloc()
 	time.Sleep(650 * time.Millisecond) // one period of the block cache timer (500 ms)
 	ok, _ := x.alive()
-	if !ok {
-		x.s.Violation("C15/node-unresponsive:c:no-answer-to-status-request", "at the end of a group the node does not answer an honest status request", wit)
+	if !ok && !x.dead {
+		where, all := stuckWhere()
+		x.s.Violation("C15/node-unresponsive:c:no-answer-to-status-request:"+where, "at the end of a group the node does not answer an honest status request; goroutines of the manager: "+all, wit)
+	}
+	if x.dead {
+		x.window = nil
+		return false
 	}
 	x.disconnect()
 	good := x.gm.check(x.s, "c", 4*time.Second, wit)
@@ -437,4 +471,42 @@ func (x *pmExec) groupEnd() bool {
 
 func (x *pmExec) close() {
 	x.disconnect()
+}
+
+// stuckWhere tells where the manager's per-peer handler (or, failing that, its block loop)
+// is blocked: the mechanism part of an unresponsive-node class.
+func stuckWhere() (string, string) {
+	sigs := goroutineSigs()
+	all := ""
+	where := "handler-not-blocked"
+	for _, entry := range []string{"network.(*ProtocolManager).handlePeer", "network.(*ProtocolManager).rcvBlockLoop", "network.(*ProtocolManager).peerLoop", "network.(*ProtocolManager).txConfirmLoop", "network.(*ProtocolManager).stableBlockLoop"} {
+		gi := sigs[entry]
+		if gi == nil {
+			continue
+		}
+		best, bn := "", 0
+		for f, c := range gi.inside {
+			if f == "network.(*MsgCache).Pop" || f == entry {
+				continue // waiting for the next message / event: the normal idle position
+			}
+			if c > bn || (c == bn && f < best) {
+				best, bn = f, c
+			}
+		}
+		pos := ""
+		for f, c := range gi.inside {
+			pos += fmt.Sprintf("%s x%d ", f, c)
+		}
+		all += fmt.Sprintf("%s: %s; ", entry, pos)
+		if best == "" {
+			continue
+		}
+		short := entry[strings.LastIndex(entry, ".")+1:]
+		if where == "handler-not-blocked" {
+			where = short + "-blocked-in:" + best
+		} else {
+			where += "+" + short + "-blocked-in:" + best
+		}
+	}
+	return where, all
 }
